@@ -22,38 +22,64 @@ fn through_bundle(input: &str) -> Vec<String> {
         input
     );
     // a panic inside the parser is C01's business (finding F1), not an observation of the decoder
-    let res = match panic::catch_unwind(|| FluentResource::try_new(src)) {
-        Ok(Ok(r)) => r,
-        Ok(Err(_)) => return na("na"),
-        Err(_) => return na("na-parser-panic"),
+    let mk = |with_transform: bool| -> Result<FluentBundle<FluentResource>, &'static str> {
+        let res = match panic::catch_unwind(|| FluentResource::try_new(src.clone())) {
+            Ok(Ok(r)) => r,
+            Ok(Err(_)) => return Err("na"),
+            Err(_) => return Err("na-parser-panic"),
+        };
+        let mut bundle: FluentBundle<FluentResource> = FluentBundle::new(vec!["en-US".parse().unwrap()]);
+        bundle.set_use_isolating(false);
+        if with_transform {
+            bundle.set_transform(Some(|s: &str| -> Cow<str> { Cow::Owned(s.to_ascii_uppercase()) }));
+        }
+        bundle
+            .add_function("ID", |pos: &[FluentValue], _: &FluentArgs| match pos.first() {
+                Some(FluentValue::String(s)) => FluentValue::String(Cow::Owned(s.to_string())),
+                _ => FluentValue::Error,
+            })
+            .unwrap();
+        bundle
+            .add_function("NAMED", |_: &[FluentValue], named: &FluentArgs| match named.get("x") {
+                Some(FluentValue::String(s)) => FluentValue::String(Cow::Owned(s.to_string())),
+                _ => FluentValue::Error,
+            })
+            .unwrap();
+        if bundle.add_resource(res).is_err() {
+            return Err("na");
+        }
+        Ok(bundle)
     };
-    let mut bundle: FluentBundle<FluentResource> = FluentBundle::new(vec!["en-US".parse().unwrap()]);
-    bundle.set_use_isolating(false);
-    bundle
-        .add_function("ID", |pos: &[FluentValue], _: &FluentArgs| match pos.first() {
-            Some(FluentValue::String(s)) => FluentValue::String(Cow::Owned(s.to_string())),
-            _ => FluentValue::Error,
-        })
-        .unwrap();
-    bundle
-        .add_function("NAMED", |_: &[FluentValue], named: &FluentArgs| match named.get("x") {
-            Some(FluentValue::String(s)) => FluentValue::String(Cow::Owned(s.to_string())),
-            _ => FluentValue::Error,
-        })
-        .unwrap();
-    if bundle.add_resource(res).is_err() {
-        return na("na");
-    }
+    let (bundle, bundle_t) = match (mk(false), mk(true)) {
+        (Ok(a), Ok(b)) => (a, b),
+        (Err(e), _) | (_, Err(e)) => return na(e),
+    };
     let mut out = vec![];
     for id in ["m", "n", "k", "p", "q"] {
         let o = match bundle.get_message(id).and_then(|m| m.value()) {
             Some(p) => {
                 let mut errs = vec![];
-                let v = bundle.format_pattern(p, None, &mut errs);
-                if errs.is_empty() {
-                    hex_enc(v.as_bytes())
-                } else {
+                let v = bundle.format_pattern(p, None, &mut errs).into_owned();
+                // the writer entry point, and both entry points with a text TRANSFORM installed: a string literal is
+                // not text of the pattern - its source (escapes included) never goes through the transform, and it is
+                // decoded the same way by both entry points
+                let mut w = String::new();
+                let mut errs_w = vec![];
+                let _ = bundle.write_pattern(&mut w, p, None, &mut errs_w);
+                let pt = bundle_t.get_message(id).and_then(|m| m.value()).unwrap_or(p);
+                let mut e3 = vec![];
+                let vt = bundle_t.format_pattern(pt, None, &mut e3).into_owned();
+                let mut wt = String::new();
+                let mut e4 = vec![];
+                let _ = bundle_t.write_pattern(&mut wt, pt, None, &mut e4);
+                if !errs.is_empty() {
                     format!("err{}", errs.len())
+                } else if w != v || !errs_w.is_empty() {
+                    format!("err-write_pattern-differs:{}", hex_enc(w.as_bytes()))
+                } else if vt != v || wt != v || !e3.is_empty() || !e4.is_empty() {
+                    format!("err-transform-touches-literal:{}/{}", hex_enc(vt.as_bytes()), hex_enc(wt.as_bytes()))
+                } else {
+                    hex_enc(v.as_bytes())
                 }
             }
             None => "na".to_string(),
@@ -68,6 +94,26 @@ fn run(payload: &str) -> String {
         Some(s) => s,
         None => return "bad-input".to_string(),
     };
+    if input.len() > 8192 {
+        // LONG inputs: the decoder runs on a thread with a SMALL stack (256 KiB) - its stack use must not grow with
+        // the number of escapes (an overflow aborts the process: reported as ABORT); the bundle path is skipped
+        let inp = input.clone();
+        let h = std::thread::Builder::new().stack_size(256 << 10).spawn(move || run_direct(&inp)).unwrap();
+        return match h.join() {
+            Ok((s, w)) => format!("{};{};f:na;r:na;k:na;t:na;q:na", s, w),
+            Err(_) => "s:panic;w:panic;f:na;r:na;k:na;t:na;q:na".to_string(),
+        };
+    }
+    let (s, w) = run_direct(&input);
+    let b = match panic::catch_unwind(|| through_bundle(&input)) {
+        Ok(x) => x,
+        Err(_) => vec!["panic".to_string(); 5],
+    };
+    format!("{};{};f:{};r:{};k:{};t:{};q:{}", s, w, b[0], b[1], b[2], b[3], b[4])
+}
+
+fn run_direct(input: &str) -> (String, String) {
+    let input = input.to_string();
     let s = match panic::catch_unwind(|| {
         let r = unescape_unicode_to_string(&input);
         let kind = match &r {
@@ -96,11 +142,7 @@ fn run(payload: &str) -> String {
         Ok(x) => x,
         Err(_) => "w:panic".to_string(),
     };
-    let b = match panic::catch_unwind(|| through_bundle(&input)) {
-        Ok(x) => x,
-        Err(_) => vec!["panic".to_string(); 5],
-    };
-    format!("{};{};f:{};r:{};k:{};t:{};q:{}", s, w, b[0], b[1], b[2], b[3], b[4])
+    (s, w)
 }
 
 fn main() {
